@@ -6,7 +6,24 @@ export GOFLAGS=-mod=mod GOPROXY=off GOSUMDB=off GOTOOLCHAIN=local
 cd $WT || exit 2
 git checkout -q -- . ; git clean -fdq -e _out
 DEMO=$(ls $O/*_test.go 2>/dev/null | head -1)
-[ -z "$DEMO" ] && { echo "no go demo in $O"; ls $O; exit 2; }
+if [ -z "$DEMO" ]; then
+  # shell demonstration: demo.sh (or run.sh) builds the CLI from the worktree it is given and exits non-zero when the property is broken
+  SH=$O/demo.sh; [ -f $O/run.sh ] && SH=$O/run.sh
+  [ -f "$SH" ] || { echo "no demo in $O"; ls $O; exit 2; }
+  export OCTOSQL_NO_TELEMETRY=1
+  rundemo() { (cd $WT && REPO=$WT timeout 600 bash $SH $WT > $O/.demo_out 2>&1; echo $?); }
+  R1=$(rundemo); echo "demo on unchanged: exit $R1"
+  git apply $O/patch.diff || { echo "patch fails"; exit 2; }
+  go build ./... || { echo "build fails"; exit 2; }
+  R2=$(rundemo); echo "demo with change: exit $R2"
+  R3=$(go test -vet=off -count=1 ./... 2>&1 | grep -v "no test files" | grep -v "^ok" | head -5)
+  echo "suite with change (non-ok lines): [$R3]"
+  git checkout -q -- . ; git clean -fdq -e _out
+  if [ "$R1" = "0" ] && [ "$R2" != "0" ] && [ -z "$R3" ]; then
+    D=/verif/seeded/$ID-$M; mkdir -p $D; cp $O/patch.diff $D/; cp $O/*.sh $D/ 2>/dev/null; cp $O/*.py $D/ 2>/dev/null; cp $O/notes.md $D/notes.md
+    echo "CONFIRMED -> $D"; exit 0
+  else echo "NOT CONFIRMED"; tail -5 $O/.demo_out; exit 1; fi
+fi
 BN=$(basename $DEMO)
 # intended path: first path in notes.md ending with the file name, else by package name
 REL=$(grep -oE "[A-Za-z0-9_/.-]*/$BN" $O/notes.md | grep -v _out | sed 's#^/tmp/mut/[^/]*/##' | head -1)
